@@ -47,7 +47,10 @@ impl Write for CountSink {
 const NAMES: [&str; 3] = ["big/a.bin", "big/b.bin", "c"];
 
 /// Write three interleaved files of `total` bytes altogether in exactly 12 runs, whatever the size.
-fn write_archive<W: Write>(dest: W, layers: u8, total: u64, recipient: &PublicKey) -> Result<W, String> {
+/// `single`: three runs only, each handed over in ONE append call (one content block per file, a
+/// third of the data each — what `mlar create` / `add_file` produce), instead of 12 runs appended
+/// in 1 MiB calls.
+fn write_archive<W: Write>(dest: W, layers: u8, total: u64, recipient: &PublicKey, single: bool) -> Result<W, String> {
     let mut cfg = ArchiveWriterConfig::new();
     cfg.set_layers(layers_of(layers));
     if layers & L_ENC != 0 {
@@ -55,14 +58,15 @@ fn write_archive<W: Write>(dest: W, layers: u8, total: u64, recipient: &PublicKe
     }
     let mut w = ArchiveWriter::from_config(dest, cfg).map_err(|e| format!("{e:?}"))?;
     let ids: Vec<u64> = NAMES.iter().map(|n| w.start_file(n).unwrap()).collect();
-    let run = total / 12;
-    for r in 0..12u64 {
+    let runs = if single { 3u64 } else { 12 };
+    let run = total / 12 * 12 / runs;
+    for r in 0..runs {
         let f = (r % 3) as usize;
-        // each run is appended in 1 MiB calls, as a streaming producer does
+        // each run is appended in 1 MiB calls, as a streaming producer does (or in one call)
         let mut left = run;
         let mut g = GenReader { left: run, x: 77 + r };
         while left > 0 {
-            let n = left.min(1 << 20);
+            let n = if single { left } else { left.min(1 << 20) };
             w.append_file_content(ids[f], n, (&mut g).take(n)).map_err(|e| format!("{e:?}"))?;
             left -= n;
         }
@@ -74,18 +78,18 @@ fn write_archive<W: Write>(dest: W, layers: u8, total: u64, recipient: &PublicKe
     Ok(w.into_raw())
 }
 
-fn one(op: &str, layers: u8, total: u64, dir: &std::path::Path, sk: &StaticSecret) -> Result<(usize, u64), String> {
+fn one(op: &str, layers: u8, total: u64, dir: &std::path::Path, sk: &StaticSecret, single: bool) -> Result<(usize, u64), String> {
     let pk = PublicKey::from(sk);
-    let path = dir.join(format!("c15_{layers}_{total}.mla"));
+    let path = dir.join(format!("c15_{layers}_{total}_{}.mla", u8::from(single)));
     match op {
         "write" => {
-            let (r, peak) = measure(|| write_archive(CountSink(0), layers, total, &pk));
+            let (r, peak) = measure(|| write_archive(CountSink(0), layers, total, &pk, single));
             Ok((peak, r?.0))
         }
         _ => {
             if !path.exists() {
                 let f = io::BufWriter::new(File::create(&path).map_err(|e| e.to_string())?);
-                write_archive(f, layers, total, &pk)?.flush().map_err(|e| e.to_string())?;
+                write_archive(f, layers, total, &pk, single)?.flush().map_err(|e| e.to_string())?;
             }
             let mut rc = ArchiveReaderConfig::new();
             rc.add_private_keys(std::slice::from_ref(sk));
@@ -125,12 +129,12 @@ pub fn c15_cases(_rng: &mut Rng, tier: &str, out: &mut Out) {
         StaticSecret::from(b)
     };
     let block: u64 = 4 << 20;
-    for layers in 0..4u8 {
+    for (layers, single) in (0..4u8).map(|l| (l, false)).chain((0..4u8).filter(|l| tier == "thorough" || *l == 0 || *l == 3).map(|l| (l, true))) {
         for op in ["write", "repair", "linear"] {
-            let a = one(op, layers, small, &dir, &sk);
-            let b = one(op, layers, big, &dir, &sk);
+            let a = one(op, layers, small, &dir, &sk, single);
+            let b = one(op, layers, big, &dir, &sk, single);
             let mut msg = None;
-            let mut meta = json!({"op": op, "layers": layers, "small": small, "big": big});
+            let mut meta = json!({"op": op, "layers": layers, "small": small, "big": big, "one_block_per_file": single});
             match (a, b) {
                 (Ok((pa, na)), Ok((pb, nb))) => {
                     meta["peak_small"] = json!(pa);
@@ -141,7 +145,7 @@ pub fn c15_cases(_rng: &mut Rng, tier: &str, out: &mut Out) {
                     // the compression layer (a Vec: allow its capacity doubling) plus allocator noise
                     let slack = (1usize << 20) + 16 * (big / block) as usize;
                     if pb > pa + slack {
-                        msg = Some(format!("{op} (layers {layers}): peak live heap {pb} bytes for {big} bytes of data, {pa} for {small}: memory grows with the amount of data streamed"));
+                        msg = Some(format!("{op} (layers {layers}{}): peak live heap {pb} bytes for {big} bytes of data, {pa} for {small}: memory grows with the amount of data streamed", if single { ", one block per file" } else { "" }));
                     }
                     let ceiling = 80usize << 20;
                     if pb > ceiling {
@@ -154,19 +158,19 @@ pub fn c15_cases(_rng: &mut Rng, tier: &str, out: &mut Out) {
                 (Err(e), _) | (_, Err(e)) => msg = Some(format!("{op} (layers {layers}) failed: {e}")),
             }
             out.case(&Case {
-                id: format!("c15-{op}-l{layers}"),
+                id: format!("c15-{op}-l{layers}{}", if single { "-oneblock" } else { "" }),
                 model_fn: "",
                 args: vec![],
                 imp: json!([]),
                 oracle_ok: msg.is_none(),
                 oracle_msg: msg.unwrap_or_default(),
-                class: format!("op={op} layers={layers}"),
+                class: format!("op={op} layers={layers} blocks={}", if single { "one-per-file" } else { "1MiB" }),
                 nontrivial: true,
                 meta,
             });
         }
         for t in [small, big] {
-            let _ = std::fs::remove_file(dir.join(format!("c15_{layers}_{t}.mla")));
+            let _ = std::fs::remove_file(dir.join(format!("c15_{layers}_{t}_{}.mla", u8::from(single))));
         }
     }
 }
